@@ -263,6 +263,9 @@ pub enum Feature {
     LongComment,
     LongBlankRun,
     SvcbRelativeTarget,
+    /// a comment that follows the last field without a blank: `192.0.2.1;x` (RFC 1035 §5.1: the
+    /// semicolon starts the comment wherever it stands outside a quoted string)
+    GluedComment,
 }
 
 impl Feature {
@@ -295,6 +298,7 @@ impl Feature {
             Feature::LongComment => "comment>=4KB",
             Feature::LongBlankRun => "blank-run>=4KB",
             Feature::SvcbRelativeTarget => "svcb-relative-target",
+            Feature::GluedComment => "comment-glued-to-last-field",
         }
     }
 }
@@ -624,8 +628,14 @@ pub fn print(z: &ZoneFile, suppress: &Features) -> (String, Features) {
                 out.push_str(&print_abs(name, &mut feats));
                 if let Some(c) = comment {
                     feats.insert(Feature::Comment);
-                    out.push(' ');
-                    out.push_str(&comment_text(c));
+                    if c.len() % 3 == 0 && !suppress.contains(&Feature::GluedComment) {
+                        feats.insert(Feature::GluedComment);
+                        out.push(';');
+                        out.push_str(c);
+                    } else {
+                        out.push(' ');
+                        out.push_str(&comment_text(c));
+                    }
                 }
                 out.push_str(nl);
                 origin = name.clone();
@@ -634,8 +644,14 @@ pub fn print(z: &ZoneFile, suppress: &Features) -> (String, Features) {
                 out.push_str(&format!("$TTL {ttl}"));
                 if let Some(c) = comment {
                     feats.insert(Feature::Comment);
-                    out.push(' ');
-                    out.push_str(&comment_text(c));
+                    if c.len() % 3 == 0 && !suppress.contains(&Feature::GluedComment) {
+                        feats.insert(Feature::GluedComment);
+                        out.push(';');
+                        out.push_str(c);
+                    } else {
+                        out.push(' ');
+                        out.push_str(&comment_text(c));
+                    }
                 }
                 out.push_str(nl);
                 ttl_default = Some(*ttl);
@@ -838,8 +854,15 @@ pub fn print(z: &ZoneFile, suppress: &Features) -> (String, Features) {
                     }
                 } else if let Some(c) = &lay.comment {
                     feats.insert(Feature::Comment);
-                    out.push_str(sep(&mut bits, &mut feats));
-                    out.push_str(&comment_text(c));
+                    // (decided last, so that the layout choices before it are unaffected)
+                    if bits.take(2) == 0 && !suppress.contains(&Feature::GluedComment) {
+                        feats.insert(Feature::GluedComment);
+                        out.push(';');
+                        out.push_str(c);
+                    } else {
+                        out.push_str(sep(&mut bits, &mut feats));
+                        out.push_str(&comment_text(c));
+                    }
                 }
                 out.push_str(nl);
             }
